@@ -1213,6 +1213,34 @@ impl<'p> VisitMut for GhostInit<'p> {
     }
 }
 
+// R30b: `x = &mut place;` where x is an eliminated alias of the same place (re-borrow after a closure used the place): dropped
+struct DropRealias<'x> {
+    name: &'x str,
+    place: String,
+    dropped: usize,
+}
+impl<'x> VisitMut for DropRealias<'x> {
+    fn visit_block_mut(&mut self, b: &mut syn::Block) {
+        let name = self.name;
+        let place = self.place.clone();
+        let before = b.stmts.len();
+        b.stmts.retain(|st| {
+            if let Stmt::Expr(Expr::Assign(a), _) = st {
+                if matches!(&*a.left, Expr::Path(p) if p.qself.is_none() && p.path.is_ident(name)) {
+                    if let Expr::Reference(r) = &*a.right {
+                        if r.mutability.is_some() && norm(r.expr.to_token_stream()) == place {
+                            return false;
+                        }
+                    }
+                }
+            }
+            true
+        });
+        self.dropped += before - b.stmts.len();
+        syn::visit_mut::visit_block_mut(self, b);
+    }
+}
+
 struct AliasElim<'x> {
     name: &'x str,
     place: &'x Expr,
@@ -1584,6 +1612,11 @@ pub fn extract_fn(file: &syn::File, name: &str, opts: &Value, rules: &[Rule], pl
                 match (place, idx) {
                     (Some(pl), Some(i)) => {
                         block.stmts.remove(i);
+                        let mut dr = DropRealias { name, place: norm(pl.to_token_stream()), dropped: 0 };
+                        dr.visit_block_mut(&mut block);
+                        if dr.dropped > 0 {
+                            cx.log.push(json!({"rule": "R30", "line": src_line, "what": format!("{} re-borrow(s) `{} = &mut {}` of the eliminated alias dropped", dr.dropped, name, one_line(pl.to_token_stream()))}));
+                        }
                         AliasElim { name, place: &pl }.visit_block_mut(&mut block);
                         cx.log.push(json!({"rule": "R30", "line": src_line, "what": format!("local alias `{}` = &mut {} eliminated", name, one_line(pl.to_token_stream()))}));
                     }
